@@ -64,7 +64,7 @@ Record wfm (s : vm) : Prop := {
   w_head : forall id l, tget (lams (st s)) id = Some l -> head_ok l
 }.
 
-Definition ipge (s : vm) : Prop := 1 <= snd (ip s).
+Definition ipge (s : vm) : Prop := 1 <= snd (ip s) /\ lamcell s (fst (ip s)).
 
 (* what every operation does to the facts [vwf] depends on *)
 Record grow0 (s s' : vm) : Prop := {
@@ -109,6 +109,9 @@ Proof.
         | intros [H1 H2]; split; [eapply lamcell_grow; eassumption|exact H2]
         | pose proof (g_gs _ _ G); lia ].
 Qed.
+
+Lemma ipge_keep s s' : grow0 s s' -> ip s' = ip s -> ipge s -> ipge s'.
+Proof. intros G E [H1 H2]. unfold ipge. rewrite E. split; [exact H1|eapply lamcell_grow; eassumption]. Qed.
 
 (* the generic preservation lemma *)
 Lemma wfm_step s s' :
@@ -285,7 +288,7 @@ Proof.
   assert (G : grow0 s (with_heap s h')).
   { apply grow0_nostore; cbn [st hp scap g_slots with_heap]; try reflexivity; try lia.
     intros b lid C. rewrite Hal; [exact C|]. eapply lam_allocated; [apply (w_heap s W)|exact C]. }
-  cbn [NoPanicBase.npost]. split; [|split; [split; [exact G|auto]|exact HQ]].
+  cbn [NoPanicBase.npost]. split; [|split; [split; [exact G|apply ipge_keep; [exact G|reflexivity]]|exact HQ]].
   apply (wfm_nostore s (with_heap s h') W eq_refl G); cbn [hp with_heap acc g_slots]; auto.
   - apply (w_gbind s W).
   - intros b. destruct (Hc b) as [H|H]; [left; exact H|right; eapply vwf_grow; eassumption].
